@@ -258,7 +258,9 @@ def functional_api(chk, repo, d):
             else:
                 love = itf.call(mg, need_func(mg, 'cpl_neg_imk_helper_func'), [uniq, st['k2'], st['Q']])
             out = itf.call(mm, need_func(mm, 'collapse_modes'), [st['g'], st['R'], st['rho'], X.ONE, st['tscale'], st['M_host'], sus, love, terms, 2], {'cpl_ctl_method': True})
-            ref = {'_tidal_heating_global': out[0], '_dUdM': out[1], '_dUdw': out[2], '_dUdO': out[3], '_tidal_susceptibility': sus, 'n': n}
+            mdyn = repo.by_path('TidalPy/dynamics/single_dissipation.py')
+            rates = itf.call(mdyn, need_func(mdyn, 'semia_eccen_derivatives'), [st['a'], n, st['e'], st['M_world'], out[1], out[2], st['M_host']])
+            ref = {'_tidal_heating_global': out[0], '_dUdM': out[1], '_dUdw': out[2], '_dUdO': out[3], '_tidal_susceptibility': sus, 'n': n, 'da/dt': rates[0], 'de/dt': rates[1]}
             bad = []
             for q, rv in ref.items():
                 gv = got.get(q)
